@@ -928,6 +928,7 @@ def _check(run, tmp):
     stats = {'ok': 0, 'routing': 0, 'diverged': 0, 'error': 0}
     markers = 0
     div_example = None
+    div_reasons = {}
     for i in range(ndyn):
         src, roles = dyn_program(rnd)
         try:
@@ -947,14 +948,21 @@ def _check(run, tmp):
                              'replay': {'program': src, 'call': 'f(T, g, cm, [1, 2]) with T the tracer of tools/props/c04.py',
                                         'problems': detail['problems'], 'generated_code': code,
                                         'command': 'cd /verif && bin/check C04 --replay <this file>'}})
-        elif div_example is None:
-            div_example = {'program': src, 'why': detail}
+        else:
+            div_reasons[str(detail)[:160]] = div_reasons.get(str(detail)[:160], 0) + 1
+            if div_example is None:
+                div_example = {'program': src, 'why': detail}
         if i == 3:
             run.sample({'dynamic_program': src})
     run.extra['dynamic'] = dict(stats, marker_executions_matched=markers)
     if stats['diverged'] or stats['error']:
-        run.note('dynamic oracle: %d runs diverged semantically / %d errored (outside C04, not judged); example: %s' % (
-            stats['diverged'], stats['error'], json.dumps(div_example)[:400]))
+        # the first example is kept in full (program text + reason), the reasons of all of them are counted
+        run.extra['dynamic_divergences'] = {'reasons': div_reasons, 'first_example': div_example}
+        run.note('dynamic oracle: %d runs diverged semantically / %d errored (outside C04, not judged; known root '
+                 'cause: reads inside a local class body are invisible to liveness, build/c04_divergences.py); '
+                 'reasons: %s; first example:\n%s\n-- %s' % (
+                     stats['diverged'], stats['error'], json.dumps(div_reasons), div_example['program'],
+                     div_example['why']))
 
     run.extra['phase_seconds'] = {'proofs': round(t_proof, 1), 'conversions': round(t_conv - t_proof, 1),
                                   'probe+coq': round(t_corr - t_conv, 1), 'dynamic': round(time.time() - run.t0 - t_corr, 1)}
